@@ -126,6 +126,19 @@ class SBool:
         return f"SBool({self.t})"
 
 
+class SVal:
+    """An untracked real VALUE (a symbolic size multiplied into a float): arithmetic keeps it opaque, any comparison or conversion is a checker error."""
+
+    def _op(self, o=None):
+        return SVal()
+    __add__ = __radd__ = __sub__ = __rsub__ = __mul__ = __rmul__ = __truediv__ = __rtruediv__ = __pow__ = __rpow__ = _op
+    __neg__ = lambda self: SVal()
+
+    def _no(self, *a):
+        raise CheckerError("an untracked real value is compared / converted (outside the shape abstraction)")
+    __bool__ = __lt__ = __le__ = __gt__ = __ge__ = __int__ = __float__ = __index__ = _no
+
+
 class SInt:
     """A symbolic mathematical integer (CPython ints are unbounded, so this is exact)."""
 
@@ -135,6 +148,8 @@ class SInt:
         self.t = t if not isinstance(t, str) else z3.Int(t)
 
     def _bin(self, o, f):
+        if isinstance(o, (float, SVal)) and not isinstance(o, bool):
+            return SVal()       # e.g. the normalisation constant N = 1.0 * n1 * n2: a value, not a size
         oi = _i(o)
         if oi is None:
             return NotImplemented
@@ -161,6 +176,18 @@ class SInt:
         return self._bin(o, lambda a, b: a * b)
 
     __rmul__ = __mul__
+
+    def __floordiv__(self, o):
+        oi = _i(o)
+        if oi is None or not (z3.is_int_value(oi) and oi.as_long() > 0):
+            return NotImplemented
+        return SInt(z3.simplify(self.t / oi))     # z3 integer division by a positive constant is floor division
+
+    def __mod__(self, o):
+        oi = _i(o)
+        if oi is None or not (z3.is_int_value(oi) and oi.as_long() > 0):
+            return NotImplemented
+        return SInt(z3.simplify(self.t % oi))
 
     def __neg__(self):
         return SInt(-self.t)
